@@ -44,8 +44,9 @@ func smallAlphabet() *tracerAlphabet {
 		slots:    []*uint256.Int{uint256.NewInt(0), uint256.NewInt(1), uint256.NewInt(2), uint256.NewInt(5), hashed},
 		offsets:  []*uint256.Int{nil, uint256.NewInt(0), uint256.NewInt(1), uint256.NewInt(31), uint256.NewInt(32), big64},
 		types:    []common.Hash{common.BytesToHash([]byte{1}), common.BytesToHash([]byte{2}), common.BytesToHash([]byte{3}), {}}, // incl. the zero type id
-		names:    [][]byte{[]byte("a"), []byte("b"), []byte("cc"), {}},
-		idxKeys:  [][]byte{{1}, {2}, common.LeftPadBytes([]byte{7}, 32), {0, 1}},
+		// names and index keys whose concatenations coincide: "a"+"b" = "ab", ""+{1} = {1}, "a"+"" = "a"
+		names:    [][]byte{[]byte("a"), []byte("b"), []byte("cc"), {}, []byte("ab"), {1}},
+		idxKeys:  [][]byte{{1}, {2}, common.LeftPadBytes([]byte{7}, 32), {0, 1}, []byte("b"), {}},
 		vals:     [][]byte{{}, {0}, {1}, {1, 2, 3}, {0xff}, common.LeftPadBytes([]byte{9}, 32)},
 	}
 }
@@ -286,6 +287,22 @@ func genTracerCase(r *Rng, em *Emitter, length int, al *tracerAlphabet) {
 		sc := it.t.StateChanges()
 		doVar := func(a common.Address, n []byte, p [][]byte) {
 			k := sc.FindKeyIndices(a, string(n), p...)
+			// C11 specification (from the history alone): a name/index path resolves only if a registration with that path
+			// was accepted — children are keyed by name, first registration wins, nothing is ever removed
+			full := append([][]byte{n}, p...)
+			wasReg := false
+			for _, g := range regs {
+				if g.a == a && bytesList(g.path) == bytesList(full) {
+					wasReg = true
+					break
+				}
+			}
+			pv := "ok"
+			if k != nil && !wasReg {
+				pv = "resolves_a_path_that_was_never_registered"
+			}
+			// (the converse fails inside the conflict classes of known finding D14 and is left to S both-see)
+			em.Op("C11", fmt.Sprintf("S path-resolves %s %s %s", hexAddr(a), hexBytes(n), bytesList(p)), pv)
 			q("C10,C11", fmt.Sprintf("var %s %s %s", hexAddr(a), hexBytes(n), bytesList(p)), showChangesImpl(k != nil, sc.Variable(a, string(n), p...)))
 			idx := sc.IndicesOfChanges(a, string(n), p...)
 			is := "nokey"
